@@ -113,18 +113,29 @@ def rule_paren_safe(ctx, rep):
                     continue
                 if not hooks:
                     continue
-                ctor = _fresh_ctor(ctx, e.method, e.node.value)
-                if ctor is None:
-                    continue
-                cls_name = unparse(ctor.func).split(".")[-1]
-                if cls_name not in NONATOMIC:
-                    continue
-                n += 1
-                kws = {k.arg for k in ctor.keywords}
-                ok = {"lpar", "rpar"} <= kws
-                rep.check("R-PAREN-SAFE", tq, e.method.loc(e.node), ok, f"{e.method.name}:{cls_name}",
-                          f"returns a fresh `{cls_name}` without lpar/rpar in place of a node that may be parenthesised: "
-                          "e.g. `not (flag or s.startswith('a') or s.startswith('b'))` becomes `not flag or s.startswith(('a','b'))`")
+                # every alternative of a conditional return is a value the hook can hand back
+                alts = [e.node.value]
+                k = 0
+                while k < len(alts):
+                    if isinstance(alts[k], ast.IfExp):
+                        alts += [alts[k].body, alts[k].orelse]
+                    k += 1
+                for alt in alts:
+                    if isinstance(alt, ast.IfExp):
+                        continue
+                    ctor = _fresh_ctor(ctx, e.method, alt)
+                    if ctor is None:
+                        continue
+                    cls_name = unparse(ctor.func).split(".")[-1]
+                    if cls_name not in NONATOMIC:
+                        continue
+                    n += 1
+                    kws = {k_.arg for k_ in ctor.keywords}
+                    ok = {"lpar", "rpar"} <= kws
+                    rep.check("R-PAREN-SAFE", tq, e.method.loc(alt), ok, f"{e.method.name}:{cls_name}",
+                              f"returns a fresh `{cls_name}` without lpar/rpar in place of a node that may be parenthesised: "
+                              "e.g. `not (flag or s.startswith('a') or s.startswith('b'))` becomes `not flag or s.startswith(('a','b'))`, "
+                              "`(x == []) * 3` becomes `not x * 3`")
     if n < 3:
         raise AnalysisError(f"only {n} fresh non-atomic expression returns found in refactoring codemods")
 
